@@ -180,7 +180,9 @@ def create_filter_mask(model: InternalModel, subset, fixed_inputs=None, *, jit_f
     if jit_filter:
         _filter = jax.jit(_filter)
 
-    return _filter(**kwargs)
+    # A filter holds if its value is truthy; filters that return 0 / 1 integers would
+    # otherwise be used as integer (fancy) indices instead of as a mask.
+    return jnp.asarray(_filter(**kwargs), dtype=bool)
 
 
 def create_forward_mask(
